@@ -202,8 +202,8 @@ func verifyProofData(keys, values []*felt.Felt) error {
 	}
 
 	for i := range keys {
-		if i < len(keys)-1 && keys[i].Cmp(keys[i+1]) > 0 {
-			return errors.New("keys are not monotonic increasing")
+		if i < len(keys)-1 && keys[i].Cmp(keys[i+1]) >= 0 {
+			return errors.New("keys are not strictly increasing")
 		}
 
 		if values[i] == nil || values[i].Equal(&felt.Zero) {
